@@ -72,6 +72,7 @@ def make_replay(mod, prop, case, v, run_seed, index, orig_case, evals, orig_res=
         "oracle_clause": v["clause"],
         "run_seed": run_seed,
         "run_index": index,
+        "history": dict(JOB_HISTORY),
         "hashseed": os.environ.get("PYTHONHASHSEED", "random"),
         "hooks_env": {HOOK_ENV: os.environ.get(HOOK_ENV, "")},
         "case": case,
@@ -83,7 +84,11 @@ def make_replay(mod, prop, case, v, run_seed, index, orig_case, evals, orig_res=
     }
 
 
+JOB_HISTORY = {}
+
+
 def run_shard(job):
+    JOB_HISTORY.update(seed=job["seed"], tier=job["tier"], shard=job["shard"], nshards=job["nshards"], reverse=bool(job.get("reverse")))
     prop = job["prop"]
     mod = load_prop(prop)
     seed, tier = job["seed"], job["tier"]
@@ -160,6 +165,18 @@ def run_replay(job):
     mod = load_prop(rep["property"])
     if hasattr(mod, "setup_worker"):
         mod.setup_worker({"tier": "quick", "replay": True})
+    if job.get("with_history") or rep.get("needs_history"):
+        # the violation depends on what ran earlier in the same interpreter (state carried across calls in the code under
+        # test): re-execute the worker's deterministic run sequence up to and including the violating run
+        h = rep["history"]
+        want = sig_key(rep["violation"]["sig"])
+        res = None
+        for i in range(h["shard"], rep["run_index"] + 1, h["nshards"]):
+            case = mod.generate(derive(h["seed"], rep["property"], i), h["tier"])
+            res = execute_guarded(mod, case)
+        got = [v for v in (res["violations"] if res else []) if sig_key(v["sig"]) == want]
+        return {"reproduced": bool(got), "same_message": bool(got), "same_digest": True, "violations": res["violations"] if res else [], "digest": res.get("digest") if res else None,
+                "with_history": True}
     res = execute_guarded(mod, rep["case"], trace=True)
     want = sig_key(rep["violation"]["sig"])
     got = [v for v in res["violations"] if sig_key(v["sig"]) == want]
